@@ -20,7 +20,9 @@ def run(tier, seed):
             # records sharing an identifier (array form) that differ in their optional arguments
             ("shapes", 2, "min", ["generation", "activity"]),
             # names of several namespaces at document and bundle level (prefix re-binding in the bundle)
-            ("ns", 2, "min", ["entity"])]
+            ("ns", 2, "min", ["entity"]),
+            # a bundle named in a namespace of its own (third namespace next to the document's and the re-bound one)
+            ("addb", 1, "min", ["entity"]), ("addbd", 2, "min", ["entity"])]
     behaviours = []
     stA = stT = 0
     wall = 0.0
